@@ -70,6 +70,22 @@ Qed.
 Goal True. idtac "ASSUMPTIONS mixed_dtype_promotes". Abort.
 Print Assumptions mixed_dtype_promotes.
 
+(* no hidden default-dtype temporaries: op wrappers and parameter-free layers / losses (Flatten, Dropout, pools,
+   Unfold/Fold, activations, every loss and reduction) do not route a floating operand through a tensor of the default
+   type (float32): probed with float16 operands, which come back float16.  (Before fix c689c99 the Dropout mask was
+   `synapgrad.tensor(mask)` = float32: a float64 input was scaled by 1/(1-p) rounded to float32.)  Operator overloads
+   with a Python scalar are deliberately outside: Tensor(2.0) IS a float32 array - see notes/C10.md. *)
+Theorem no_hidden_default_dtype_temporaries :
+  forall r, In r (wrapper_rows ++ param_free_layer_rows) -> all_dtype F16 (op_result gen_cfg F16 F16 r) = true.
+Proof. intros r Hr. exact (forallb_In _ _ probe_ok_all r Hr). Qed.
+Goal True. idtac "ASSUMPTIONS no_hidden_default_dtype_temporaries". Abort.
+Print Assumptions no_hidden_default_dtype_temporaries.
+
+Example dropout_probe :
+  deval0 gen_cfg [Np F16 KArray; PyBool (Some true); PyFloat] l_Dropout = [Np F16 KArray] /\
+  existsb (fun r => str_eqb (op_name r) "Dropout#0") param_free_layer_rows = true.
+Proof. vm_compute. split; reflexivity. Qed.
+
 Example mixed_add_f32_f64 :
   map (fun r => op_result gen_cfg F32 F64 r) (filter (fun r => str_eqb (op_name r) "functional.add#0") op_rows) = [[Np F64 KArray]].
 Proof. vm_compute. reflexivity. Qed.
